@@ -19,6 +19,7 @@ func GenCfg(t *rapid.T) Cfg {
 		Custom:    rapid.IntRange(0, 3).Draw(t, "custom") == 0,
 		FmtKind:   rapid.IntRange(0, 4).Draw(t, "customFormatName"),
 		NestedDir: rapid.Bool().Draw(t, "nested"),
+		DevShm:    rapid.IntRange(0, 5).Draw(t, "devShm") == 0,
 	}
 }
 
@@ -51,7 +52,16 @@ func GenOps(t *rapid.T, max int, pauses bool) []Op {
 // RunSeq executes a whole sequence in a fresh temp dir. onlyProp filters the
 // violations that are reported ("" = all).
 func RunSeq(c Cfg, ops []Op) (*Violation, *Runner, int) {
-	root, err := os.MkdirTemp("", "verif-fsx-")
+	base := ""
+	if c.DevShm {
+		if st, err := os.Stat("/dev/shm"); err == nil && st.IsDir() {
+			base = "/dev/shm"
+		}
+	}
+	root, err := os.MkdirTemp(base, "verif-fsx-")
+	if err != nil && base != "" {
+		root, err = os.MkdirTemp("", "verif-fsx-")
+	}
 	if err != nil {
 		return &Violation{"infra", err.Error()}, nil, 0
 	}
